@@ -2,6 +2,7 @@ package checks
 
 import (
 	"fmt"
+	"regexp"
 	"strings"
 
 	"verif/internal/core"
@@ -534,6 +535,44 @@ func c03PkgInfoProgram(rng *core.Rand, pkg string) (src string, extra map[string
 	wrap.WriteString("func VarCat(parts ...string) string {\n\tfmt.Println(\"VarCat\", len(parts))\n\tr := \"\"\n\tfor i, p := range parts {\n\t\tif i > 0 {\n\t\t\tr += \"+\"\n\t\t}\n\t\tr += p\n\t}\n\treturn r\n}\n\n")
 	body.WriteString("  frt.Println (useCat3 ())\n  frt.Println (useCat2 ())\n  frt.Println (useCatPiped ())\n")
 	w.WriteString("VarCat 3\na+b+c\nVarCat 2\nx+y\nVarCat 2\np+q\n")
+	// fc allots 100 type variables per top-level definition: the calls are spread over functions of
+	// about 20 statements (a let and the statement using it stay together)
+	{
+		lines := strings.Split(strings.TrimRight(body.String(), "\n"), "\n")
+		var parts []string
+		var cur []string
+		word := regexp.MustCompile(`[A-Za-z_][A-Za-z0-9_]*`)
+		bound := map[string]bool{}
+		usedLater := func(from int) bool {
+			for _, l := range lines[from:] {
+				for _, w := range word.FindAllString(l, -1) {
+					if bound[w] {
+						return true
+					}
+				}
+			}
+			return false
+		}
+		for i, l := range lines {
+			cur = append(cur, l)
+			if strings.HasPrefix(l, "  let ") {
+				if eq := strings.Index(l, " = "); eq > 0 {
+					for _, w := range word.FindAllString(l[len("  let "):eq], -1) {
+						bound[w] = true
+					}
+				}
+			}
+			if len(cur) >= 20 && !usedLater(i+1) || i == len(lines)-1 {
+				bound = map[string]bool{}
+				name := fmt.Sprintf("runPart%d", len(parts))
+				fo.WriteString("let " + name + " () =\n" + strings.Join(cur, "\n") + "\n  ()\n\n")
+				parts = append(parts, "  "+name+" ()\n")
+				cur = nil
+			}
+		}
+		body.Reset()
+		body.WriteString(strings.Join(parts, ""))
+	}
 	fo.WriteString("let Run () =\n" + body.String() + "  frt.Printf1 \"%d\\n\" (slice.Length [1])\n  frt.Println \"end\"\n")
 	w.WriteString("1\nend\n")
 	fixImports := func(src string) string {
